@@ -17,6 +17,12 @@ SRC = os.path.join(REPO, "src")
 BUILD = os.path.join(ROOT, "build")
 OBJ = os.path.join(BUILD, "obj")
 NCPU = max(2, min(16, os.cpu_count() or 2))
+# A run against another checkout (VERIF_REPO=<scratch worktree>, used for seeded changes and mutants) must not
+# disturb the evidence, replays or scratch output of a run against /repo itself: it gets its own directories.
+ALT = os.path.realpath(REPO) != "/repo"
+ALT_TAG = ("-" + hashlib.sha256(os.path.realpath(REPO).encode()).hexdigest()[:8]) if ALT else ""
+EVID_DIR = os.path.join(BUILD, "alt" + ALT_TAG, "evidence") if ALT else os.path.join(ROOT, "evidence")
+REPLAY_DIR = os.path.join(BUILD, "alt" + ALT_TAG, "replays") if ALT else os.path.join(ROOT, "replays")
 
 sys.path.insert(0, ROOT)
 from props import PROPS  # noqa: E402
@@ -99,9 +105,14 @@ def build(pid, variant="main"):
     """Builds the repo objects and the harness for property `pid` from /repo's working tree."""
     cfg = PROPS[pid]
     v = cfg if variant == "main" else cfg["variants"][variant]
-    os.makedirs(OBJ, exist_ok=True)
     hd = headers_digest()
     flags = list(BASE_CXX)
+    # VF_COVERAGE=<dir>: gcov-instrumented build into <dir> (tools/coverage.py); not used by registered commands
+    cov = os.environ.get("VF_COVERAGE")
+    OBJ = os.path.abspath(cov) if cov else globals()["OBJ"]
+    os.makedirs(OBJ, exist_ok=True)
+    if cov:
+        flags += ["--coverage", "-fprofile-update=atomic", "-DVF_COVERAGE"]
     if v.get("sanitizer", cfg.get("sanitizer")) == "none":
         flags = [f for f in flags if f != "-fsanitize=address"]
     if v.get("sanitizer") == "thread":
@@ -114,11 +125,12 @@ def build(pid, variant="main"):
         o = os.path.join(OBJ, key + ".o")
         objs.append(o)
         if not os.path.exists(o):
-            cmds.append((flags + ["-c", sp, "-o", o + ".tmp%d" % os.getpid()], s))
+            cmds.append((flags + ["-c", sp, "-o", o if cov else o + ".tmp%d" % os.getpid()], s))
     run_parallel(cmds)
     for argv, _ in cmds:
         tmp = argv[-1]
-        os.replace(tmp, tmp[:tmp.rindex(".tmp")])
+        if not cov:
+            os.replace(tmp, tmp[:tmp.rindex(".tmp")])
     hflags = flags + v.get("harness_cxxflags", cfg.get("harness_cxxflags", []))
     ld = v.get("ldflags", cfg.get("ldflags", []))
     hsrcs = [os.path.join(ROOT, h) for h in v.get("harness", cfg.get("harness"))]
@@ -134,15 +146,17 @@ def build(pid, variant="main"):
             cmds.append((hflags + ["-c", h, "-o", ho], os.path.basename(h)))
         run_parallel(cmds)
         tmp = exe + ".tmp%d" % os.getpid()
-        run_parallel([(flags + hobjs + objs + ld + ["-lz", "-lpthread", "-o", tmp], "link " + pid)])
+        run_parallel([(flags + hobjs + objs + ld + (["-Wl,--wrap=_exit"] if cov else []) + ["-lz", "-lpthread", "-o", tmp], "link " + pid)])
         os.replace(tmp, exe)
         for ho in hobjs:
-            os.unlink(ho)
+            if not cov:
+                os.unlink(ho)
     else:
         os.utime(exe)
     for o in objs:
         os.utime(o)
-    prune_cache()
+    if not cov:
+        prune_cache()
     return exe
 
 
@@ -345,8 +359,8 @@ def main():
     if args.setup:
         for d in ("obj", "out", "scratch"):
             os.makedirs(os.path.join(BUILD, d), exist_ok=True)
-        os.makedirs(os.path.join(ROOT, "evidence"), exist_ok=True)
-        os.makedirs(os.path.join(ROOT, "replays"), exist_ok=True)
+        os.makedirs(EVID_DIR, exist_ok=True)
+        os.makedirs(REPLAY_DIR, exist_ok=True)
         print("setup ok")
         return 0
     pid = args.pid
@@ -366,7 +380,7 @@ def main():
         rp = json.load(open(args.replay))
         env.update(build_aux(cfg))
         exe = build(pid, rp.get("variant", "main"))
-        outdir = os.path.join(BUILD, "out", pid + "-replay")
+        outdir = os.path.join(BUILD, "out", pid + "-replay" + ALT_TAG)
         shutil.rmtree(outdir, ignore_errors=True)
         os.makedirs(outdir)
         env["VF_OUTDIR"] = outdir
@@ -386,11 +400,11 @@ def main():
         return 1 if failed else 0
 
     tier = args.tier
-    outdir = os.path.join(BUILD, "out", "%s-%s" % (pid, tier))
+    outdir = os.path.join(BUILD, "out", "%s-%s%s" % (pid, tier, ALT_TAG))
     shutil.rmtree(outdir, ignore_errors=True)
     os.makedirs(outdir)
-    os.makedirs(os.path.join(ROOT, "evidence"), exist_ok=True)
-    os.makedirs(os.path.join(ROOT, "replays"), exist_ok=True)
+    os.makedirs(EVID_DIR, exist_ok=True)
+    os.makedirs(REPLAY_DIR, exist_ok=True)
     env["VF_OUTDIR"] = outdir
     deadline_s = args.deadline or cfg.get("deadline", {}).get(tier, 600 if tier == "quick" else 3600)
     deadline = t0 + deadline_s
@@ -536,13 +550,13 @@ def main():
     new, listed = [], []
     for key, v in sorted(viols.items()):
         (listed if key in known else new).append(key)
-    for f in glob.glob(os.path.join(ROOT, "replays", pid + "-*.json")):
+    for f in glob.glob(os.path.join(REPLAY_DIR, pid + "-*.json")):
         os.unlink(f)
     for key in listed:
         print("KNOWN-FINDING: property=%s %s [%s; minimal case: %s]" % (pid, known[key], key, viols[key]["desc"][:300]))
     for key in new:
         v = viols[key]
-        rp = os.path.join(ROOT, "replays", "%s-%s.json" % (pid, sanitize(key.split(":", 1)[1])))
+        rp = os.path.join(REPLAY_DIR, "%s-%s.json" % (pid, sanitize(key.split(":", 1)[1])))
         json.dump(dict(property=pid, harness=cfg["harness"], variant=v["variant"], section=v["section"], tier=tier, idx=v["idx"], key=key,
                        mode=v.get("mode", "only"), shard=v.get("shard", 0), nshards=v.get("nshards", 1),
                        desc=v["desc"], count=v["count"], stderr=v.get("stderr", "")), open(rp, "w"), indent=1)
@@ -567,9 +581,9 @@ def main():
             known_findings_seen=[dict(key=k, desc=viols[k]["desc"][:500], count=viols[k]["count"]) for k in listed],
             engine_errors=engine_errors),
         assumptions=cfg["assumptions"], wall_s=round(wall, 2), violations=len(new))
-    tmp = os.path.join(ROOT, "evidence", pid + ".json.tmp")
+    tmp = os.path.join(EVID_DIR, pid + ".json.tmp")
     json.dump(ev, open(tmp, "w"), indent=1)
-    os.replace(tmp, os.path.join(ROOT, "evidence", pid + ".json"))
+    os.replace(tmp, os.path.join(EVID_DIR, pid + ".json"))
     log("%s %s: evals=%d states=%d trans=%d validated=%d exhaustive=%s new=%d known=%d wall=%.1fs (build %.1fs)" % (
         pid, tier, tot["evaluations"], nstates, ntrans, validated, exhaustive, len(new), len(listed), wall, tbuild))
     if not os.environ.get("VF_KEEP"):
